@@ -73,8 +73,25 @@ func (w *Writer) Syn(fam, text string, e Expr) {
 
 // EvalX evaluates an expression string; the model parses the string itself.
 func (w *Writer) EvalX(fam string, doc *Doc, env Env, start int, text string) string {
-	impl := RunExec(doc.Dump, start, text, env)
+	// built ONCE: the forest that is exported is the forest that is executed
 	line := fmt.Sprintf("evalx %s %s %d %s", doc.Id, env.Sexp(), start, EncStr(text))
+	impl := "builderr"
+	func() {
+		defer func() {
+			if r := recover(); r != nil {
+				impl = "panic"
+			}
+		}()
+		g, err := xsel.BuildExpr(text)
+		if err != nil {
+			return
+		}
+		// the parse forest the real evaluator walks: the model's handler walk (Xsel/Walk.lean) runs on it
+		if f := ExportForest(&g); f != "-" {
+			line += " " + f
+		}
+		impl = RunBuilt(doc.Dump, start, &g, env)
+	}()
 	w.Line(line, impl, map[string]interface{}{"k": "evalx", "fam": fam, "doc": doc.Id, "start": start, "xpath": text, "env": env})
 	return impl
 }
